@@ -55,12 +55,23 @@ pub mod btree_map {
                 if keep { i += 1 } else { self.remove_at(i); }
             }
         }
-        pub fn iter(&self) -> impl DoubleEndedIterator<Item = (&K, &V)> + '_ { self.slots[..self.n].iter().map(|s| { let (k, v) = s.as_ref().unwrap(); (k, v) }) }
+        pub fn iter(&self) -> Iter<'_, K, V> { Iter { map: self, lo: 0, hi: self.n } }
         pub fn iter_mut(&mut self) -> impl DoubleEndedIterator<Item = (&K, &mut V)> + '_ { let n = self.n; self.slots[..n].iter_mut().map(|s| { let (k, v) = s.as_mut().unwrap(); (&*k, v) }) }
         pub fn values_mut(&mut self) -> impl DoubleEndedIterator<Item = &mut V> + '_ { self.iter_mut().map(|(_, v)| v) }
-        pub fn keys(&self) -> impl Iterator<Item = &K> + '_ { self.iter().map(|(k, _)| k) }
-        pub fn values(&self) -> impl Iterator<Item = &V> + '_ { self.iter().map(|(_, v)| v) }
+        pub fn keys(&self) -> Keys<'_, K, V> { Keys(self.iter()) }
+        pub fn values(&self) -> Values<'_, K, V> { Values(self.iter()) }
     }
+    /// concrete iterator types WITHOUT a Drop impl, like std's: a borrow held by one of them ends at its last use (an
+    /// `impl Iterator + '_` return type would keep the map borrowed to the end of the scope and reject code that std accepts)
+    pub struct Iter<'a, K, V> { map: &'a BTreeMap<K, V>, lo: usize, hi: usize }
+    impl<'a, K, V> Iterator for Iter<'a, K, V> { type Item = (&'a K, &'a V); fn next(&mut self) -> Option<Self::Item> { if self.lo < self.hi { self.lo += 1; Some((self.map.key_at(self.lo - 1), self.map.val_at(self.lo - 1))) } else { None } } }
+    impl<'a, K, V> DoubleEndedIterator for Iter<'a, K, V> { fn next_back(&mut self) -> Option<Self::Item> { if self.lo < self.hi { self.hi -= 1; Some((self.map.key_at(self.hi), self.map.val_at(self.hi))) } else { None } } }
+    pub struct Keys<'a, K, V>(Iter<'a, K, V>);
+    impl<'a, K, V> Iterator for Keys<'a, K, V> { type Item = &'a K; fn next(&mut self) -> Option<&'a K> { self.0.next().map(|(k, _)| k) } }
+    impl<'a, K, V> DoubleEndedIterator for Keys<'a, K, V> { fn next_back(&mut self) -> Option<&'a K> { self.0.next_back().map(|(k, _)| k) } }
+    pub struct Values<'a, K, V>(Iter<'a, K, V>);
+    impl<'a, K, V> Iterator for Values<'a, K, V> { type Item = &'a V; fn next(&mut self) -> Option<&'a V> { self.0.next().map(|(_, v)| v) } }
+    impl<'a, K, V> DoubleEndedIterator for Values<'a, K, V> { fn next_back(&mut self) -> Option<&'a V> { self.0.next_back().map(|(_, v)| v) } }
     impl<K: Ord, V> BTreeMap<K, V> {
         /// Ok(i): key at index i; Err(i): insertion point
         fn find(&self, k: &K) -> Result<usize, usize> {
